@@ -72,7 +72,7 @@ def run_tlc(module, cfg, *, workers=NCPU, env=None, extra=(), timeout=3600, heap
             txt = re.sub(rf"^(\s*{re.escape(k)}\s*=).*$", lambda m_: f"{m_.group(1)} {v}", txt, flags=re.M)
         cfgpath = os.path.join(md, os.path.basename(cfg))
         open(cfgpath, "w").write(txt)
-    cmd = ["java", "-XX:+UseParallelGC", f"-Xmx{heap}", "-cp", TLA_CP, "tlc2.TLC",
+    cmd = ["java", "-XX:+UseParallelGC", "-Xss64m", f"-Xmx{heap}", "-cp", TLA_CP, "tlc2.TLC",
            "-workers", str(workers), "-metadir", md, "-noGenerateSpecTE",
            "-config", cfgpath, *extra, os.path.join(SPEC, module + ".tla")]
     e = dict(os.environ)
@@ -159,7 +159,8 @@ def validate_records(records, trace_module, trace_cfg="", *, chunk=4000, jobs=NC
             elif "consumed" in obj:
                 consumed = (obj["consumed"], obj["total"])
         if consumed is None or consumed[0] != n or consumed[1] != n:
-            raise MachineryError(f"trace validation incomplete ({consumed} of {n}) for {p}:\n{out[-3000:]}")
+            errs = "\n".join(l for l in out.splitlines() if l.startswith("Error") or "line " in l and "module" in l)[:3000]
+            raise MachineryError(f"trace validation incomplete ({consumed} of {n}) for {p}:\n{errs}\n{out[-1500:]}")
         return bad
 
     bad = {}
